@@ -46,6 +46,9 @@ type crcCase struct {
 	// Prior: an earlier call on the same client (its reply is valid): success | eof | ioerr | partial-stall
 	Prior      string `json:"prior,omitempty"`
 	PriorShape string `json:"prior_shape,omitempty"` // request of the earlier call: "" same | short | long
+	// PauseMs > 0: the read that delivers the second chunk blocks this long first (silence on the line between the parts of the
+	// corrupted reply); the client's total read timeout is 1 s in these cases
+	PauseMs int `json:"pause_ms,omitempty"`
 	// ExplicitParser: the client's configuration names the standard response parser explicitly (see cli.Scenario)
 	ExplicitParser bool `json:"explicit_parser,omitempty"`
 }
@@ -125,7 +128,12 @@ func runCRC(c crcCase) harness.Result {
 	if c.EOF == 2 {
 		ev = append(ev, xport.Event{Kind: "eof", N: 0})
 	}
-	sc := cli.Scenario{Kind: c.Kind, Req: c.Req, Stream: stream, Events: ev, ReadTimeoutMs: 25, Prior: c.Prior, PriorReq: cli.PriorShapeReq(c.PriorShape), ExplicitParser: c.ExplicitParser}
+	rtMs := 25
+	if c.PauseMs > 0 && len(ev) >= 2 && ev[1].Kind == "data" {
+		ev[1].Ms = c.PauseMs
+		rtMs = 1000
+	}
+	sc := cli.Scenario{Kind: c.Kind, Req: c.Req, Stream: stream, Events: ev, ReadTimeoutMs: rtMs, Prior: c.Prior, PriorReq: cli.PriorShapeReq(c.PriorShape), ExplicitParser: c.ExplicitParser}
 	return judge(c, stream, reply, cli.Run(sc))
 }
 
@@ -256,6 +264,12 @@ func genCRC(t *rapid.T, kinds []string) crcCase {
 		c.EOF = rapid.SampledFrom([]int{0, 0, 1, 2}).Draw(t, "eof")
 	}
 	c.ExplicitParser = !cli.IsSerial(c.Kind) && rapid.IntRange(0, 2).Draw(t, "explicit_parser") == 0
+	if c.Corr.Kind == "prepend" && rapid.IntRange(0, 7).Draw(t, "pause_after_noise") == 0 {
+		// the noise in front arrives on its own, the line then stays silent for a while before the (valid) rest follows
+		c.Cuts = []int{len(c.Corr.Data)}
+		c.PauseMs = rapid.SampledFrom([]int{60, 120}).Draw(t, "pause_ms")
+		c.EOF = 0
+	}
 	if rapid.IntRange(0, 3).Draw(t, "with_prior") == 0 {
 		c.Prior = rapid.SampledFrom([]string{"success", "success", "ioerr", "partial-stall"}).Draw(t, "prior")
 		c.PriorShape = rapid.SampledFrom(cli.PriorShapes).Draw(t, "prior_shape")
